@@ -224,6 +224,7 @@ def _mate_step(sc, st, ix, pg, mp, pname, state, V, log, probes):
     C = cls.__name__ + ".mate"
     before = sdig(pg)
     pc0, fc0 = state["pc"], state["fc"]
+    args0 = [numpy.array(a, copy=True) for a in (xconfig, nm, npg)]
     try:
         prog = mp.mate(pg, xconfig, nm, npg, nself=st["nself"])
     except Exception as e:
@@ -235,6 +236,13 @@ def _mate_step(sc, st, ix, pg, mp, pname, state, V, log, probes):
     if sdig(pg) != before:
         V.append(viol("parents-unaltered", C, "pgmat", "step %d: parental genotype matrix changed by mate()" % ix, step=ix))
         return False
+    # the caller's design arrays are what a later call with the same objects would be read from
+    for nm_, a0, a1 in zip(("xconfig", "nmating", "nprogeny"), args0, (xconfig, nm, npg)):
+        if not numpy.array_equal(a0, numpy.asarray(a1)):
+            V.append(viol("design-follows-arguments", C, "argument-modified:" + nm_,
+                          "step %d: mate() changed the caller's %s from %s to %s: the next call with the same object no longer follows the design" %
+                          (ix, nm_, a0.tolist(), numpy.asarray(a1).tolist()), step=ix))
+            return False
     if prog.mat.shape != (2, total, pg.nvrnt) or prog.ntaxa != total:
         V.append(viol("progeny-count", C, "nself=%d" % min(st["nself"], 1), "step %d: %d progeny, configuration dictates %d (nmating=%s nprogeny=%s)" %
                       (ix, prog.mat.shape[1], total, st["nmating"], st["nprogeny"]), step=ix))
